@@ -2313,6 +2313,24 @@ class SeqKinds:
                 m = self.p.lookup_method(c.qual, e.attr)
                 if m is not None and m.is_property():
                     return m.node.returns
+                if m is None:
+                    return self._declared(c, e.attr)
+        return None
+
+    def _declared(self, c: Class, attr: str):
+        """declared type of an instance attribute: `attr: T [= v]` in a class body of the MRO, or `self.attr: T = v` in a method"""
+        for k in self.p.mro(c.qual):
+            kc = self.p.classes.get(k)
+            if kc is None:
+                continue
+            for n in kc.node.body:
+                if isinstance(n, ast.AnnAssign) and isinstance(n.target, ast.Name) and n.target.id == attr:
+                    return n.annotation
+            for mf in kc.methods.values():
+                for n in walk_no_nested(mf.node):
+                    if isinstance(n, ast.AnnAssign) and isinstance(n.target, ast.Attribute) and n.target.attr == attr \
+                            and isinstance(n.target.value, ast.Name) and n.target.value.id == 'self':
+                        return n.annotation
         return None
 
     def elem_kind(self, e) -> Optional[str]:
